@@ -14,7 +14,9 @@ for d in seeded/*/; do id=$(basename $d); pid=${id%%-*}; echo "$id $d/patch.diff
 # seeds whose mechanism lives in another property's check
 echo "C01-m1 seeded/C01-m1/patch.diff C04"; echo "C06-m2 seeded/C06-m2/patch.diff C04"; echo "C12-m2 seeded/C12-m2/patch.diff C18"
 # reverted fixes: defect -> properties
-while read d pids; do for p in $pids; do echo "rev-$d fixes/fix_$d.diff $p --reverse"; done; done <<'T'
+while read d pids; do for p in $pids; do
+  if [ -f fixes/fix_${d}_revert.diff ]; then echo "rev-$d fixes/fix_${d}_revert.diff $p"; else echo "rev-$d fixes/fix_$d.diff $p --reverse"; fi
+done; done <<'T'
 D01 C01
 D02 C01 C04
 D04 C01 C05
@@ -40,7 +42,7 @@ D42 C05
 D43 C06
 D44 C15 C14
 D45 C11
-D46 C04
+D46 C04 C01
 D47 C07
 D48 C20 C06
 D49 C20
@@ -51,6 +53,32 @@ D53 C15
 D54 C16
 D55 C16
 D56 C16
+D57 C04
+D58 C04
+D59 C01 C04
+D60 C16
+D61 C02
+D62 C03
+D63 C05
+D64 C12
+D65 C18
+D66 C15
+D67 C15
+D68 C15
+D69 C09
+D70 C09 C11
+D71 C11
+D72 C11
+D73 C06
+D74 C14 C06
+D75 C07
+D76 C20
+D77 C06 C17
+D78 C13
+D79 C20
+D80 C05 C01
+D81 C12
+D82 C14
 T
 } | xargs -P $jobs -L 1 bash -c 'run "$0" "$1" "$2" "$3"'
 cat /tmp/seedmx_*.out | sort > seeded/RESULTS.txt
